@@ -126,7 +126,9 @@ func (w *World) RunCase(n int, q Q, r *rand.Rand, bigLen int) Line {
 	conn := connTokens(q, r)
 	raw := wireConn(m, tgt, host, lines, tail, conn)
 
-	w.Back.Reset()
+	if !w.Shared {
+		w.Back.Reset()
+	}
 	to := 10 * time.Second
 	if len(b) > 1<<18 {
 		to = 30 * time.Second
@@ -432,5 +434,91 @@ func RunCells(in, out string, seed int64, sample, reps, workers, base int, noshu
 	bw.Flush()
 	sum.Executed = len(jobs)
 	sum.Distinct = len(distinct)
+	return sum, nil
+}
+
+// RunBurst sends n signed cells through ONE proxy pair at the same moment (workers in flight at once): the
+// signer, the HMAC key, the cookie cipher and the reverse proxy are shared by all of them, as in production.
+// Every request is recorded as an ordinary one-step cell and judged by the same rules.
+func RunBurst(in, out string, seed int64, n, workers, base int) (*Summary, error) {
+	cells, err := LoadCells(in)
+	if err != nil {
+		return nil, err
+	}
+	sum := &Summary{Driver: "fw-burst", Read: len(cells), Hits: map[string]int{}, Status: map[string]int{}}
+	var pool, bigs []int
+	for i, c := range cells {
+		if (c.Q.Signer || c.Q.Hmac) && c.Q.Mode == "auth" && c.Q.Conn == "none" {
+			pool = append(pool, i)
+			if c.Q.Signer && (c.Q.Body == "big" || c.Q.Body == "binary") {
+				bigs = append(bigs, i)
+			}
+		}
+	}
+	if len(pool) == 0 {
+		return nil, fmt.Errorf("no signed cells to burst")
+	}
+	rng := rand.New(rand.NewSource(seed))
+	w, err := NewWorld()
+	if err != nil {
+		return nil, fmt.Errorf("fixture: %v", err)
+	}
+	defer w.Close()
+	w.Shared = true
+	if workers < 2 {
+		workers = 2
+	}
+	lines := make([]Line, n)
+	pick := make([]int, n)
+	for j := range pick {
+		// half of the burst carries large bodies: the longer a request spends being hashed and signed, the more
+		// of the others overlap with it
+		if len(bigs) > 0 && j%2 == 0 {
+			pick[j] = bigs[rng.Intn(len(bigs))]
+		} else {
+			pick[j] = pool[rng.Intn(len(pool))]
+		}
+	}
+	const round = 160 // the backend's log is emptied between rounds (bodies are kept in it)
+	for lo := 0; lo < n; lo += round {
+		hi := lo + round
+		if hi > n {
+			hi = n
+		}
+		w.Back.Reset()
+		var wg sync.WaitGroup
+		gate := make(chan struct{})
+		for wk := 0; wk < workers; wk++ {
+			wg.Add(1)
+			go func(wk int) {
+				defer wg.Done()
+				<-gate
+				for j := lo + wk; j < hi; j += workers {
+					r := rand.New(rand.NewSource(seed*1000003 + int64(base+j)))
+					lines[j] = w.RunCase(base+j, cells[pick[j]].Q, r, -(1 << 19))
+				}
+			}(wk)
+		}
+		close(gate)
+		wg.Wait()
+	}
+	f, err := os.Create(out)
+	if err != nil {
+		return nil, err
+	}
+	defer f.Close()
+	bw := bufio.NewWriter(f)
+	enc := json.NewEncoder(bw)
+	distinct := map[int]bool{}
+	for j, l := range lines {
+		distinct[pick[j]] = true
+		sum.count(l.Q, l.Out)
+		sum.Status[fmt.Sprint(l.Conc.Status)]++
+		if err := enc.Encode(l); err != nil {
+			return nil, err
+		}
+	}
+	bw.Flush()
+	sum.Executed, sum.Distinct = n, len(distinct)
 	return sum, nil
 }
